@@ -148,21 +148,43 @@ def canon(doc: dict) -> str:
 
 
 def compile_digest(compiler) -> dict:
-    """Everything observable of a successful ExplorerScriptSsbCompiler.compile()."""
-    d = routines_to_json(compiler.routine_infos, compiler.named_coroutines, compiler.routine_ops)
-    d["named_coroutines"] = list(compiler.named_coroutines)
-    d["source_map"] = json.loads(compiler.source_map.serialize())
+    """Everything observable of a successful ExplorerScriptSsbCompiler.compile(). A result that cannot be read (missing
+    table, None where a source map belongs, tables of different lengths) is recorded as such instead of crashing the
+    harness: it then differs from the reference, or equals it, like any other value."""
+    try:
+        d = routines_to_json(compiler.routine_infos, compiler.named_coroutines, compiler.routine_ops)
+    except Exception as e:
+        d = {"routines": f"<unreadable: {type(e).__name__}>"}
+    try:
+        d["named_coroutines"] = list(compiler.named_coroutines)
+    except Exception as e:
+        d["named_coroutines"] = f"<unreadable: {type(e).__name__}>"
+    try:
+        d["table_lengths"] = [len(compiler.routine_infos), len(compiler.named_coroutines), len(compiler.routine_ops)]
+    except Exception:
+        d["table_lengths"] = None
+    try:
+        d["source_map"] = json.loads(compiler.source_map.serialize())
+    except Exception as e:
+        d["source_map"] = f"<unreadable: {type(e).__name__}>"
     d["imports"] = list(getattr(compiler, "imports", []) or [])
     macros = getattr(compiler, "macros", None) or {}
-    d["macros"] = sorted(
-        [name, getattr(m, "included__absolute_path", None), getattr(m, "included__relative_path", None)]
-        for name, m in macros.items()
-    )
+    try:
+        d["macros"] = sorted(
+            [name, getattr(m, "included__absolute_path", None), getattr(m, "included__relative_path", None)]
+            for name, m in macros.items()
+        )
+    except Exception as e:
+        d["macros"] = f"<unreadable: {type(e).__name__}>"
     return d
 
 
 def decompile_digest(text: str, source_map) -> dict:
-    return {"text": text, "source_map": json.loads(source_map.serialize())}
+    try:
+        sm = json.loads(source_map.serialize())
+    except Exception as e:
+        sm = f"<unreadable: {type(e).__name__}>"
+    return {"text": text if isinstance(text, str) else f"<not a str: {type(text).__name__}>", "source_map": sm}
 
 
 def process_settings() -> dict:
